@@ -162,11 +162,11 @@ pub fn run(ctx: &mut Ctx) {
                 ctx.class("msg_longer_than_needed");
             }
             let mut p2 = Prng::new(sub, "f");
-            if len >= 1 {
-                eea_case(ctx, &key, count, bearer, dir, len, &msg_eea, "eea_sweep");
-            }
+            // LENGTH = 0 is in the domain of both functions: ceil(0/32) = 0 words come back, also for an empty message
+            eea_case(ctx, &key, count, bearer, dir, len, &msg_eea, "eea_sweep");
             if len == 0 {
                 ctx.class("eia_length_zero");
+                ctx.class("eea_length_zero");
             }
             eia_case(ctx, &key, count, bearer, dir, len, &msg_eia, "eia_sweep", &mut p2);
             if rep == 0 && len == 193 {
@@ -174,7 +174,7 @@ pub fn run(ctx: &mut Ctx) {
             }
         }
     }
-    ctx.exhaustive("LENGTH 0..=600 (EIA3) and 1..=600 (EEA3)", true);
+    ctx.exhaustive("LENGTH 0..=600 (EIA3 and EEA3)", true);
     // all 32 bearers x 2 directions explicitly, at a fixed set of lengths
     for bearer in 0..32u32 {
         for dir in 0..2u32 {
